@@ -1,4 +1,4 @@
 #!/bin/sh
 # thorough tier of every check: prints the arming line and every undetected variant
 export PATH=/opt/veriftools/go1.26.8/bin:$PATH GOTOOLCHAIN=local GOFLAGS=-mod=mod GOPROXY=off GOSUMDB=off; unset GOWORK
-for i in C01 C02 C03 C04 C05 C06 C07 C08 C09 C10 C11 C12 C13 C14 C15 C16 C17 C18 C19 C20; do echo $i; done | xargs -P 3 -I{} sh -c "/verif/bin/grogcheck check {} -tier thorough -repo /repo -verif /tmp/arm_verif > /tmp/armall_{}.out 2>&1; echo {} exit=\$? \$(grep 'thorough:' /tmp/armall_{}.out); grep 'NOT detected' /tmp/armall_{}.out" | sort
+for i in C01 C02 C03 C04 C05 C06 C07 C08 C09 C10 C11 C12 C13 C14 C15 C16 C17 C18 C19 C20; do echo $i; done | xargs -P 3 -I{} sh -c "/verif/bin/grogcheck check {} -tier thorough -repo /repo -verif /verif > /tmp/armall_{}.out 2>&1; echo {} exit=\$? \$(grep 'thorough:' /tmp/armall_{}.out); grep 'NOT detected' /tmp/armall_{}.out" | sort
